@@ -224,7 +224,9 @@ func init() {
 				}
 			}
 		}
-		pcs := randomTreeCases(c, "c03-random", c.N(250, 4000), treeOpts(), func(g *sgen.G, root sgen.M, base any) []any {
+		o3 := treeOpts()
+		o3.Formats = true // format-typed strings, and `format` as a mere annotation on integers / numbers / booleans
+		pcs := randomTreeCases(c, "c03-random", c.N(250, 4000), o3, func(g *sgen.G, root sgen.M, base any) []any {
 			var docs []any
 			for _, p := range g.Positions(root, base) {
 				if len(p.Path) == 0 {
